@@ -27,10 +27,22 @@ func PoolFor(quick bool) *hist.Pool {
 	return p
 }
 
+// SiblingPool is a second alphabet: many single-segment siblings under one node (children slices
+// with spare capacity, re-sorting on insertion), one method, explored with more live routes.
+func SiblingPool() *hist.Pool {
+	return &hist.Pool{
+		Methods:    []string{"GET"},
+		Patterns:   []string{"/a", "/b", "/c", "/d", "/e", "/{x}", "/*{w}"},
+		BadMethod:  "get",
+		BadPattern: "/{x",
+	}
+}
+
 // Case is a replayable C02 case: an operation list whose last operation is the one checked.
 type Case struct {
-	Quick bool      `json:"quick"`
-	Path  []hist.Op `json:"path"`
+	Quick    bool      `json:"quick"`
+	Siblings bool      `json:"siblings,omitempty"`
+	Path     []hist.Op `json:"path"`
 }
 
 func render(path []hist.Op) string {
@@ -115,38 +127,46 @@ func indent(s string) string {
 }
 
 func run(c *mc.Ctx, r *mc.Result) {
-	p := PoolFor(c.Quick())
-	ops := p.Ops(true)
 	maxLive := 3
 	if c.Quick() {
 		maxLive = 2
 	}
-	r.Bounds["bfs"] = fmt.Sprintf("methods %v, %d patterns, %d operations (5 kinds + Truncate; direct / committed txn / aborted txn; malformed pattern and method), states with <=%d registered routes expanded", p.Methods, len(p.Patterns), len(ops), maxLive)
+	runBFS(c, r, "prefixes", PoolFor(c.Quick()), maxLive, false)
+	sib := 5
+	if !c.Quick() {
+		sib = 6
+	}
+	runBFS(c, r, "siblings", SiblingPool(), sib, true)
+}
+
+func runBFS(c *mc.Ctx, r *mc.Result, name string, p *hist.Pool, maxLive int, siblings bool) {
+	ops := p.Ops(true)
+	r.Bounds["bfs."+name] = fmt.Sprintf("methods %v, patterns %v, %d operations (5 kinds + Truncate; direct / committed txn / aborted txn; malformed pattern and method), states with <=%d registered routes expanded", p.Methods, p.Patterns, len(ops), maxLive)
 	g, viols := hist.BFS(p, ops, maxLive, 0, runtime.NumCPU(), c.Expired, func(from *hist.State, op hist.Op) (*hist.State, []hist.Violation) {
 		return Step(p, from, op)
 	})
-	r.States = int64(len(g.States))
-	r.Transitions = g.Transitions
-	r.Evaluations = g.Transitions
-	r.TracesValidated = g.Transitions
-	r.Count("model_states", int64(len(g.ByModel)))
+	r.States += int64(len(g.States))
+	r.Transitions += g.Transitions
+	r.Evaluations += g.Transitions
+	r.TracesValidated += g.Transitions
+	r.Count(name+".model_states", int64(len(g.ByModel)))
 	multi := 0
 	for _, l := range g.ByModel {
 		if len(l) > 1 {
 			multi++
 		}
 	}
-	r.Count("model_states_with_several_shapes", int64(multi))
-	r.DistinctNontrivial = int64(len(g.States))
+	r.Count(name+".model_states_with_several_shapes", int64(multi))
+	r.DistinctNontrivial += int64(len(g.States))
 	if g.Truncated {
-		r.NotExhaustive = append(r.NotExhaustive, "BFS stopped by the time guard")
+		r.NotExhaustive = append(r.NotExhaustive, "BFS "+name+" stopped by the time guard")
 	}
 	for _, v := range viols {
-		r.Violate("bfs", v.Class, v.Msg, Case{Quick: c.Quick(), Path: v.Path})
+		r.Violate("bfs", v.Class, v.Msg, Case{Quick: c.Quick(), Siblings: siblings, Path: v.Path})
 	}
 	for i, s := range g.States {
-		if i == 1 || i == len(g.States)/2 || i == len(g.States)-1 {
-			r.Sample(map[string]any{"path": render(s.Path), "model": s.Model.String()})
+		if i == 1 || i == len(g.States)-1 {
+			r.Sample(map[string]any{"bfs": name, "path": render(s.Path), "model": s.Model.String()})
 		}
 	}
 }
@@ -157,6 +177,9 @@ func replay(c *mc.Ctx, raw json.RawMessage) string {
 		return "bad case"
 	}
 	p := PoolFor(cs.Quick)
+	if cs.Siblings {
+		p = SiblingPool()
+	}
 	pre := cs.Path[:len(cs.Path)-1]
 	from := &hist.State{Path: pre, Model: hist.ModelOf(pre)}
 	_, viols := Step(p, from, cs.Path[len(cs.Path)-1])
